@@ -13,6 +13,7 @@ ENCODED = [
     "mchap.pedigree.prior.double_reduction_permutations", "mchap.pedigree.prior.log_unknown_dosage_prior",
     "mchap.pedigree.prior.set_allelic_dosage", "mchap.pedigree.prior.set_parental_copies",
     "mchap.pedigree.validation.trio_valid", "mchap.pedigree.validation.duo_valid", "mchap.jitutils.comb",
+    "mchap.pedigree.classes.PedigreeAllelesMultiTrace.incongruence", "mchap.pedigree.classes._trace_incongruence",
 ]
 STUBS = ["mchap.jitutils.add_log_prob -> ln(e^x+e^y) summary (lemma-checked in C17 itself on every run)"]
 ASSUMES = ["allele frequencies symbolic > 0 summing to one", "error rates symbolic in (0,1) or the endpoints 0 / 1",
@@ -50,7 +51,23 @@ def configs(tier):
                         continue
                     out.append(dict(pp=pp, pq=pq, tp=tp, tq=tq, nA=nA, P=list(P) if P else None, lam=lam, err=err))
     out.append(dict(kind="lemma"))
+    # PEDERR: the fraction of retained steps in which an individual fails the same validity test, against its OWN pedigree edges
+    for name in (PEDERR_QUICK if tier == "quick" else list(PEDERR_PEDS)):
+        out.append(dict(kind="pederr", ped=name))
     return out
+
+
+# name -> (ploidies, parents, tau, lambda); genotypes over 2 alleles
+PEDERR_PEDS = {
+    "duo-p-unbalanced": ([2, 4], [[-1, -1], [0, -1]], [[1, 1], [1, 3]], [[0.0, 0.0], [0.0, 0.0]]),
+    "duo-q-unbalanced": ([2, 4], [[-1, -1], [-1, 0]], [[1, 1], [3, 1]], [[0.0, 0.0], [0.0, 0.0]]),
+    "duo-clone": ([2, 2], [[-1, -1], [0, -1]], [[1, 1], [2, 0]], [[0.0, 0.0], [0.0, 0.0]]),
+    "duo-lambda-p": ([4, 4], [[-1, -1], [0, -1]], [[2, 2], [2, 2]], [[0.0, 0.0], [0.125, 0.0]]),
+    "duo-lambda-q": ([4, 4], [[-1, -1], [-1, 0]], [[2, 2], [2, 2]], [[0.0, 0.0], [0.0, 0.125]]),
+    "trio-unbalanced": ([2, 4, 3], [[-1, -1], [-1, -1], [0, 1]], [[1, 1], [2, 2], [1, 2]], [[0.0, 0.0]] * 3),
+    "trio-lambda": ([4, 4, 4], [[-1, -1], [-1, -1], [1, 0]], [[2, 2], [2, 2], [2, 2]], [[0.0, 0.0], [0.0, 0.0], [0.125, 0.0]]),
+}
+PEDERR_QUICK = ["duo-p-unbalanced", "duo-q-unbalanced", "duo-clone", "duo-lambda-p", "duo-lambda-q", "trio-unbalanced"]
 
 
 def _canonical(g):
@@ -62,6 +79,8 @@ def _canonical(g):
 def weight(c):
     if c.get("kind") == "lemma":
         return 0
+    if c.get("kind") == "pederr":
+        return 500
     return (c["tp"] + c["tq"]) ** c["nA"] * (2 if c["lam"] else 1)
 
 
@@ -94,6 +113,8 @@ def run_config(c, col):
     E.cfg.concrete_ints = True
     if c.get("kind") == "lemma":
         return _lemma(col)
+    if c.get("kind") == "pederr":
+        return _run_pederr(c, col)
     pp_ = E.load("mchap.pedigree.prior")
     pv = E.load("mchap.pedigree.validation")
     nA, tp, tq = c["nA"], c["tp"], c["tq"]
@@ -269,12 +290,75 @@ def _real_trio(c, g, P, Q, f, ep, eq, lp, lq):
                            rnp.log(rnp.array(f)), *scr, rnp.zeros(mp))
 
 
+def _run_pederr(c, col):
+    """PedigreeAllelesMultiTrace.incongruence (what call-pedigree reports as PEDERR) on solver-chosen traces == fraction of steps
+    in which the individual is Mendelian-invalid for its own parents, gamete ploidies and double-reduction settings"""
+    pc = E.load("mchap.pedigree.classes")
+    site = "mchap.pedigree.classes.PedigreeAllelesMultiTrace.incongruence"
+    ploidy, parents, tau, lam = PEDERR_PEDS[c["ped"]]
+    n, mp = len(ploidy), max(ploidy)
+    genos = [M.genotypes(2, P) for P in ploidy]
+    steps = 2
+
+    def body(ctx):
+        tr = rnp.full((1, steps, n, mp), -1, dtype=rnp.int16)
+        pick = []
+        for s_ in range(steps):
+            row = []
+            for i in range(n):
+                k = int(E.SymInt(E.fresh_int(ctx, "g%d_%d" % (s_, i), 0, len(genos[i]) - 1))) if (s_ == 0 or i == n - 1) else row_first[i]
+                row.append(k)
+                tr[0, s_, i, : ploidy[i]] = genos[i][k]
+            if s_ == 0:
+                row_first = row
+            pick.append(row)
+        trace = pc.PedigreeAllelesMultiTrace(tr, n_allele=2)
+        out = trace.incongruence(sample_ploidy=rnp.array(ploidy), sample_parents=rnp.array(parents), gamete_tau=rnp.array(tau), gamete_lambda=rnp.array(lam, dtype=float))
+        return pick, [float(x) for x in out]
+
+    first = True
+    for pr in E.explore(body, stats=col.stats):
+        if pr.exc is not None:
+            col.fail(site, "exception", shape=dict(ped=c["ped"]), witness=dict(exc=repr(pr.exc), model=E.model_dict(_model(pr.ctx))), desc="raised %r" % (pr.exc,))
+            continue
+        col.path()
+        if first:
+            col.reachable(pr.ctx)
+            first = False
+        pick, got = pr.value
+        want = []
+        for i in range(n):
+            bad = 0
+            p, q = parents[i]
+            for row in pick:
+                g = genos[i][row[i]]
+                if p < 0 and q < 0:
+                    ok = True
+                elif p < 0 or q < 0:
+                    e = 0 if q < 0 else 1
+                    k = p if q < 0 else q
+                    ok = M.duo_mendelian_valid(g, genos[k][row[k]], tau[i][e], dr=lam[i][e] > 0)
+                else:
+                    ok = M.mendelian_valid(g, genos[p][row[p]], genos[q][row[q]], tau[i][0], tau[i][1], dr_p=lam[i][0] > 0, dr_q=lam[i][1] > 0)
+                bad += not ok
+            want.append(bad / float(steps))
+        if any(abs(a - b) > 1e-12 for a, b in zip(got, want)):
+            col.fail(site, "pederr-vs-oracle", shape=dict(ped=c["ped"]), witness=dict(ped=c["ped"], states=[[list(genos[i][row[i]]) for i in range(n)] for row in pick], got=got, want=want, model=E.model_dict(_model(pr.ctx))),
+                     desc="PEDERR %s, Mendelian oracle on the individual's own edges gives %s (%s, states %s)" % (got, want, c["ped"], [[list(genos[i][row[i]]) for i in range(n)] for row in pick]))
+        else:
+            col.ok("PEDERR == fraction of steps in which the individual is Mendelian-invalid for its own parents / tau / lambda (%s)" % c["ped"])
+
+
 def replay(v):
     import math
     from mchap.pedigree import prior as rp, validation as rv
 
     if v["config"].get("kind") == "lemma":
         return False, "lemma failure (engine summary); not a repo violation"
+    if v["config"].get("kind") == "pederr":
+        from checks import wiring
+
+        return wiring.replay_real(v, _run_pederr)
     c, f, ep, eq, lp, lq = _concrete(v)
     w = v["witness"]
     P = tuple(w["P"]) if w.get("P") is not None else None
